@@ -41,7 +41,8 @@ TRUSTED = [
 ASSUMPTIONS = [
     "point arrays have shape (3,) or (n,3); coordinates are finite; non-degenerate point sets (no coincident points, no collinear "
     "triple where an angle plane is needed) for the textbook/range statements",
-    "connectivity cases keep every squared distance at least 1e-9 (relative) away from its squared threshold",
+    "connectivity cases keep every squared distance at least 1e-9 (relative) away from its squared threshold, except the boundary "
+    "stream (radius 1.8 + 1.8, power-of-two thresholds, axis-aligned: exact in binary64), which sits exactly at it / one step inside",
 ]
 EXTRA_TARGETS = ["Model/Geometry.vo"]
 REQ = ["QV.Common.Outcome", "QV.Common.Geo3", "QV.Common.Geo3Np", "QV.Common.Geo3Q", "QV.Gen.Dihedral", "QV.Model.Geometry"]
@@ -254,8 +255,13 @@ def oracle_single(case):
 
     A = [np_in([p], form) for p in P]
     od = call(cd, A[0], A[1])
-    oa = call(ca, A[0], A[1], A[2], degrees=dg)
-    ot = call(ct, A[0], A[1], A[2], A[3], degrees=dg)
+    if case.get("omit_kw") and not dg:
+        # radians are the kernels' default: the keyword is left out
+        oa = call(ca, A[0], A[1], A[2])
+        ot = call(ct, A[0], A[1], A[2], A[3])
+    else:
+        oa = call(ca, A[0], A[1], A[2], degrees=dg)
+        ot = call(ct, A[0], A[1], A[2], A[3], degrees=dg)
     obs = {"dist": od, "ang": oa, "dih": ot}
     for nm, o in obs.items():
         if o[0] != "Ok":
@@ -354,7 +360,7 @@ def oracle_batched(case):
     A = [np_in(P, form) for P, form in ins]
     f = {"distance": cd, "angle": ca, "dihedral": ct}[fn]
     kw = {} if fn == "distance" else {"degrees": dg}
-    out = call(f, *A, **kw)
+    out = call(f, *A, **({} if (case.get("omit_kw") and not dg) else kw))
     lens = [len(P) for P, _ in ins]
     n = max(lens)
     compatible = all(m in (1, n) for m in lens)
@@ -414,6 +420,8 @@ def oracle_measure(case):
         same = out[0] == ref[0] and (np.array_equal(np.array(out[1], dtype=float), np.array(ref[1], dtype=float)) if out[0] == "Ok" else out[1] == ref[1])
         if not same:
             fails.append({"what": "Molecule.measure differs from measure_coordinates on its geometry", "observed": [repr(out), repr(ref)]})
+    elif case.get("omit_kw") and not dg:
+        out = call(mc, coords, ms)                  # measure_coordinates defaults to radians
     else:
         out = call(mc, coords, ms, degrees=dg)
     obs = {"out": out, "coords": coords}
@@ -540,6 +548,8 @@ def conn_reference(P, radii, thr):
             d2 = fdot(fsub(P[i], P[j]), fsub(P[i], P[j]))
             c = (Fr(radii[i]) + Fr(radii[j])) * t
             if c > 0:
+                if d2 == c * c:
+                    continue          # exactly AT the scaled sum (boundary stream: exact in binary64 too): "closer than" is strict
                 margin = min(margin, abs(float(d2 / (c * c)) - 1.0))
                 if d2 < c * c:
                     want.append((i, j))
@@ -554,10 +564,10 @@ def oracle_conn(case):
     radii = radii_of(syms)
     want, margin = conn_reference(P, radii, thr)
     obs = {"radii": radii, "margin": margin}
-    if margin < 1e-9:
+    if margin < 1e-9 and not case.get("boundary"):
         obs["skip"] = True
         return fails, obs
-    kw = {"threshold": thr}
+    kw = {} if (case.get("omit_kw") and thr == 1.2) else {"threshold": thr}       # 1.2 is the documented default
     if dc is not None:
         kw["default_connectivity"] = dc
     out = call(gc, np.array(syms), to_np(P), **kw)
@@ -732,7 +742,7 @@ def gen_cases(ctx):
     for _ in range(12000 if T else 700):
         P = rnd_quad(rng)
         cases.append({"kind": "single", "stream": "single", "pts": pts_json(P), "form": rng.choice(["1d", "2d"]),
-                      "degrees": rng.random() < 0.5, "motion": rnd_motion(rng)})
+                      "degrees": rng.random() < 0.5, "motion": rnd_motion(rng), "omit_kw": rng.random() < 0.5})
     # batched / mixed shapes
     for _ in range(5000 if T else 400):
         n = rng.choice([1, 2, 2, 3, 3, 4, 5, 7])
@@ -747,7 +757,7 @@ def gen_cases(ctx):
         else:
             shapes = [rng.choice(["n", "k2", "k3"]) for _ in range(4)]
         cases.append({"kind": "batched", "stream": "batched", "fn": fn, "degrees": rng.random() < 0.5, "shapes": shapes,
-                      "cols": [pts_json(c) for c in cols]})
+                      "cols": [pts_json(c) for c in cols], "omit_kw": rng.random() < 0.5})
     # measure_coordinates / Molecule.measure
     import itertools
 
@@ -781,7 +791,17 @@ def gen_cases(ctx):
         else:
             ms = [rnd_m() for _ in range(rng.choice([0, 1, 2, 3, 3]))]
         cases.append({"kind": "measure", "stream": "measure", "coords": pts_json(P), "ms": ms, "degrees": rng.random() < 0.5,
-                      "via": "molecule" if rng.random() < 0.3 else "function"})
+                      "via": "molecule" if rng.random() < 0.3 else "function", "omit_kw": rng.random() < 0.5})
+        # history: the very same measurement list on two more coordinate sets of the same size, back to back (a result memoised
+        # on the indices, or any state left behind by the previous call, shows here)
+        if rng.random() < 0.15 and ms:
+            for _h in range(2):
+                while True:
+                    P2 = [rnd_point(rng, 6) for _ in range(n)]
+                    if general_position(P2):
+                        break
+                cases.append({"kind": "measure", "stream": "measure-history", "coords": pts_json(P2), "ms": ms,
+                              "degrees": cases[-1]["degrees"], "via": cases[-1]["via"], "omit_kw": cases[-1]["omit_kw"]})
     # straight / folded-back / nearly collinear triples (lattice and random directions), scalar and batched; linear molecules
     def rnd_dir():
         if rng.random() < 0.5:
@@ -843,7 +863,26 @@ def gen_cases(ctx):
         cases.append({"kind": "conn", "stream": "connectivity", "symbols": syms, "geom": pts_json(P),
                       "thr": rng.choice([1.2, 1.2, 1.0, 0.8, 1.5, 2.0, 0.0, -1.0, 1.25]),
                       "default": rng.choice([None, None, 1, 0, 2.5]),
-                      "motion": rnd_motion(rng, reflect=rng.random() < 0.3), "perm": perm})
+                      "motion": rnd_motion(rng, reflect=rng.random() < 0.3), "perm": perm, "omit_kw": rng.random() < 0.5})
+    # the boundary of the bond criterion: two atoms without a tabulated radius (1.8 each) exactly thr * (1.8 + 1.8) apart along a
+    # coordinate axis, thr a power of two - every step of the criterion is exact in binary64 whatever the association, so the pair
+    # is AT the scaled sum and must not be listed ("closer than"); one binary64 step nearer it must be
+    r18 = Fr(1.8)
+    for _ in range(60 if T else 12):
+        thr = rng.choice([0.5, 1.0, 2.0])
+        d = 2 * r18 * Fr(thr)
+        ax = rng.randrange(3)
+        sgn = rng.choice([-1, 1])
+        nearer = rng.random() < 0.5
+        dd = Fr(float(np.nextafter(float(d), 0.0))) if nearer else d
+        P = [(Fr(0), Fr(0), Fr(0)), tuple(sgn * dd if k == ax else Fr(0) for k in range(3))]
+        syms = [rng.choice(["Xx", "Gh", "Og"]), rng.choice(["Xx", "Gh", "Og"])]
+        if rng.random() < 0.5:
+            far = tuple(Fr(9) if k == (ax + 1) % 3 else Fr(0) for k in range(3))
+            P.append(far)
+            syms.append("H")
+        cases.append({"kind": "conn", "stream": "connectivity-boundary", "symbols": syms, "geom": pts_json(P), "thr": thr,
+                      "default": None, "motion": None, "perm": None, "boundary": "nearer" if nearer else "at"})
     return cases
 
 
@@ -859,7 +898,7 @@ def correspond(ctx):
                  "between consecutive bonds) x rational rigid motions / reflections from integer quaternions x 1-D / (1,3) / (n,3) "
                  "shapes x degrees flag; straight / folded-back / nearly collinear triples on lattice and random directions (scalar, batched, and "
                  "as linear molecules through measure_coordinates / Molecule.measure); measure index lists incl. negative, out-of-range and wrong-length; molecules of 1-15 atoms "
-                 "x thresholds for connectivity. A case is non-trivial if the implementation returned a value (not an exception) "
+                 "x thresholds for connectivity (keywords given or left to their defaults; the same measurement list on several coordinate sets back to back; pairs exactly at / one binary64 step inside the bond threshold). A case is non-trivial if the implementation returned a value (not an exception) "
                  "and the point set is non-degenerate; distinct = distinct inputs")
     cases = gen_cases(ctx)
     buckets = {k: [] for k in CHK_TY}
@@ -871,6 +910,10 @@ def correspond(ctx):
             continue
         corr.count(case["stream"])
         corr.hit("kind_" + case["kind"] + ("_" + case["fn"] if "fn" in case else ""))
+        if case.get("omit_kw"):
+            corr.hit("keyword_defaults_exercised")
+        if case.get("boundary"):
+            corr.hit("conn_boundary_" + case["boundary"])
         if case["kind"] == "conn":
             if obs.get("skip"):
                 corr.hit("conn_skipped_near_threshold")
@@ -964,15 +1007,24 @@ LEVEL_TEXT = (
     "Over ANY field with a square-root function (no axioms): distance = |p-q|; the arccos argument is clip(-cos of the textbook "
     "angle); the (y,x) given to arctan2 equals the textbook pair (|b2| b1.(b2xb3), (b1xb2).(b2xb3)) divided by |b2|^2 (despite the "
     "v1.v1 operand); invariance under translation + orthogonal matrices (det 1 for the dihedral), y -> -y under det -1, reversal, "
-    "degrees = radians*180/pi, batched distance/angle/dihedral = row-wise for every number of rows, measure index form = row-wise form, distance_matrix entries, "
+    "degrees = radians*180/pi, batched distance/angle/dihedral = row-wise for every number of rows (C18_batched_full: arccos/arctan2/degrees "
+    "included; C18_broadcast_distance: one row against n), measure index form = row-wise form, Molecule.measure = measure_coordinates in "
+    "degrees by default (C18_entry_point_defaults), distance_matrix entries, "
     "guess_connectivity = exactly the pairs i<j with d < thr(r_i+r_j) in lexicographic order, its rigid invariance and relabelling "
     "under reordering. Over the reals: angle = acos(textbook cosine) in [0,pi]; dihedral is an argument in [-pi,pi] of the textbook "
     "pair, and the only one in (-pi,pi] (atan2 defined from acos, specification proved); reflection negates it; the squared-distance bond decision equals the "
-    "code's. (Batched compute_dihedral was found broken by this model — ValueError on 2 rows, wrong values on 3 — and repaired in "
+    "code's, and a pair exactly at the scaled sum is not bonded (C18_connectivity_boundary_strict). (Batched compute_dihedral was found broken by this model — ValueError on 2 rows, wrong values on 3 — and repaired in "
     "/repo as 056f883; the old failing inputs stay in the corpus.)")
 LEVEL_NOTE = (
     "Trusted: Coq kernel + vm_compute; the translator; the numpy semantics of Common/Geo3Np.v over an exact field (no binary64 "
     "rounding/inf/nan); libm arccos/arctan2 (their arguments are proved, their values checked by sin/cos residuals <= 1e-9 each run); "
-    "hand models of measure_coordinates' dispatch, distance_matrix and the connectivity loop are tied by correspondence only; radii come "
-    "from C17. Part-B theorems depend on the Reals library axioms (sig_forall_dec, sig_not_dec, functional_extensionality_dep, classic); "
+    "the hand models of measure_coordinates' dispatch, distance_matrix and the bond test are proved equal to the code translated from "
+    "the sources (C18_generated_glue_is_model), their loop skeletons are pinned structurally and tied by correspondence; the keyword "
+    "defaults (degrees of the kernels / measure_coordinates / Molecule.measure, threshold of guess_connectivity) are read from the "
+    "signatures each run (C18_entry_point_defaults) and exercised by calls that omit the keyword; radii come from C17. Clause map: "
+    "textbook -> C18_distance_is_textbook / _angle_argument_ / _dihedral_is_textbook + the _R_ theorems; rigid motions -> "
+    "C18_rigid_invariance; ranges -> C18_distance_R, C18_angle_R_range, C18_dihedral_R_is_textbook; reflection / reversal -> "
+    "C18_reflection_flips_dihedral, C18_reversal_preserves_*; degrees -> C18_degrees; forms agree -> C18_batched_*, C18_batched_full, "
+    "C18_broadcast_distance, C18_measure_index_form, C18_distance_matrix_entry, C18_entry_point_defaults; bonds -> C18_connectivity_spec, "
+    "_boundary_strict, _rigid_invariant, _relabel; only oracle: radii lookup, default_connectivity post-processing, binary64 effects. Part-B theorems depend on the Reals library axioms (sig_forall_dec, sig_not_dec, functional_extensionality_dep, classic); "
     "part A is closed.")
